@@ -340,7 +340,8 @@ class PDFStream(PDFObject):
             (self.data, self.rawdata),
         )
         data = self.rawdata
-        if self.decipher:
+        # Cross-reference streams are never encrypted (PDF 32000-1:2008, 7.5.8.2)
+        if self.decipher and self.attrs.get("Type") is not LITERAL_XREF:
             # Handle encryption
             assert self.objid is not None
             assert self.genno is not None
